@@ -40,7 +40,43 @@ def check_offset(off, start, J, sel, what):
 
 
 def tail_argsort_idx(score_at, count, sel):
-    return Sym('dynamic_slice', Sym('argsort', at_key(score_at)), (fz(lift(count) - lift(sel)),), (fz(sel),))
+    return norm_sel(Sym('dynamic_slice', Sym('argsort', at_key(score_at)), (fz(lift(count) - lift(sel)),), (fz(sel),)))
+
+
+def _score_len(score):
+    if isinstance(score, tuple) and score and score[0] == 'AT' and len(score[1]) == 1:
+        ax = score[1][0]
+        return lift(ax) if isinstance(ax, int) else lift(SymDim(ax))
+    return None
+
+
+def norm_sel(v):
+    """canonical form of "the indices of the k largest entries of a score vector" (as a set): the tail of an ascending
+    argsort written with dynamic_slice or with a negative slice, and the index output of lax.top_k, all become
+    topk_idx(score, k)"""
+    if isinstance(v, Poly):
+        return v.map_atoms(lambda a: ('S', norm_sel(a[1])) if a[0] == 'S' else a)
+    if isinstance(v, tuple):
+        return tuple(norm_sel(x) for x in v)
+    if not isinstance(v, Sym):
+        return v
+    args = tuple(norm_sel(a) for a in v.args)
+    v = Sym(v.op, *args)
+    if v.op == 'dynamic_slice' and len(args) == 3 and isinstance(args[0], Sym) and args[0].op == 'argsort' and len(args[0].args) == 1:
+        score = args[0].args[0]
+        n = _score_len(score)
+        start, size = args[1], args[2]
+        if n is not None and isinstance(start, tuple) and len(start) == 1 and isinstance(size, tuple) and len(size) == 1 \
+                and lift(start[0]) == n - lift(size[0]):
+            return Sym('topk_idx', score, size[0])
+    if v.op == 'getitem' and len(args) == 2 and isinstance(args[0], Sym) and args[0].op == 'argsort' and len(args[0].args) == 1:
+        sl = args[1]
+        if isinstance(sl, tuple) and len(sl) == 4 and sl[0] == 'slice' and sl[2] is None and sl[3] is None and sl[1] is not None:
+            k = -lift(sl[1])
+            return Sym('topk_idx', args[0].args[0], fz(k))
+    if v.op == 'top_k.idx' and len(args) == 2 and not (isinstance(args[1], Sym) and args[1].op == 'max'):
+        return Sym('topk_idx', args[0], args[1])
+    return v
 
 
 def run(chk):
@@ -87,9 +123,9 @@ def run(chk):
             score, ax = expected_score(s, kind, system)
             cand = stub_time(None, count) if kind == 'ode' else make_stub_omega(s.d)(None, count)
             exp = Sym('gather', at_key(cand), tail_argsort_idx(score, count, sel))
-            if not same(as_sym(pts), exp):
+            if not same(norm_sel(as_sym(pts)), exp):
                 from .C09 import first_diff
-                raise Violation(f"{store}: added points", str(pts)[:260] + " [" + str(first_diff(fz(as_sym(pts)), fz(exp)))[:300] + "]",
+                raise Violation(f"{store}: added points", str(pts)[:260] + " [" + str(first_diff(fz(norm_sel(as_sym(pts))), fz(exp)))[:300] + "]",
                                 f"candidates gathered at the {sel} largest squared residuals: {str(exp)[:200]}")
             return f"added = gather(candidates[{ax}], argsort(sum_c R_c^2)[-{sel}:])"
         chk.run("C17.R2", f"{RAR}:_rar_step_init.rar_step_true", cfg, go_sel, construct=f"selection[{kind},{'system' if system else 'single'}]")
